@@ -56,7 +56,8 @@ def cases(tier, rng, schema, feats):
             for mb in mutate.byte_mutations(rng, enc, nmut):
                 add("dec2", mb.hex())
     # stand-alone nested types
-    for t, d in schema.items():
+    for t in request_types(schema):
+        d = schema[t]
         if d["kind"] == "struct" and d["de"]:
             tree = g.named_wire(t, present="all")
             enc = cbor.enc(tree)
@@ -86,8 +87,10 @@ def judge(line, m, i):
     ni = core.norm(i)
     if ni in ("panic", "missing", "hang") or ni.startswith("abort"):
         return "implementation did not return: " + (i or "no answer")[:200]
-    if core.norm(m) != ni:
-        return "model of the specification and implementation disagree"
+    # C04's observation is "returns a request or an error status"; WHICH value or status is the business
+    # of C01/C05/C12.  The model must agree that the input does not reach a panic site.
+    if core.norm(m) in ("panic", "fuel"):
+        return "the model reaches a Panic/Fuel value on this input while the implementation returned: the totality argument does not cover it"
     return None
 
 
